@@ -158,8 +158,7 @@ def plan(tier):
                             excludable=inductive.EXCLUDABLE))
     if tier == "thorough":
         add("k3-episode-arcs", "arcs,arcs,leave", kinds="rd")
-        for a in main:
-            add("k3-" + a, "%s,%s,%s" % (a, a, a))
+        add("k3-retract", "retract,retract,retract", kinds="r")
         add("k4-episode-modes", "modes,enter,modes,leave")
         add("k4-episode-retract", "retract,enter,retract,leave")
     return out
